@@ -5,7 +5,7 @@
    fuel level of tresult, by tresult_S). FlowSemModel is tied to the generated code by
    the correspondence of lib/gen_common.py: programs generated from abstract flows are
    compiled by the real cff, executed under scenario tables, and compared call by call. *)
-From CffVerif Require Import FlowSemModel FlowSemProofs.
+From CffVerif Require Import FlowSemModel FlowSemProofs FlowOpModel FlowOpProofs FlowAdequacy.
 
 (* predicate false: the task function is never called, its outputs are the zero values,
    and the task does not fail the flow *)
@@ -72,6 +72,20 @@ Theorem C11_fallback_unused_on_success :
     outs = map (fun i => TmOut k i a) (seq 0 (length (kouts (tk f k)))).
 Proof. exact success_ignores_fallback. Qed.
 Print Assumptions C11_fallback_unused_on_success.
+
+(* the statements above are about FlowSemModel; FlowAdequacy proves that this semantics is
+   what the generated jobs do in every execution the scheduler can produce: whatever outcome
+   it assigns to task k (at any fuel), the job of k has that outcome - result, values
+   assigned, calls with their arguments - whenever it runs, on every schedule *)
+Theorem C11_on_every_schedule :
+  forall f sc, unique_providers f -> forall n k e ef, reach f sc e -> In (FT k, ef) (xlog e) ->
+    match tresult f sc n k with
+    | RBlocked _ => True
+    | ROuts outs _ tc => je_res ef = JOk /\ je_outs ef = Some outs /\ je_calls ef = call_of k tc
+    | RFail er _ tc => je_res ef = JFail er /\ je_calls ef = call_of k tc
+    end.
+Proof. intros f sc Hu n. exact (proj1 (proj2 (sem_sound f sc Hu n))). Qed.
+Print Assumptions C11_on_every_schedule.
 
 (* non-vacuity: a two-task flow where the predicate of the second task is false *)
 Example C11_witness :
